@@ -127,6 +127,10 @@ def algebra_machine(res, tier, wd):
             items.append(dict(cls=cls, kw=kw, flag=flag, variant=0,
                               h=[dict(op="oracle", f=1, g=0, s=0, q=1), dict(op="oracle", f=1, g=0, s=0, q=1),
                                  dict(op="value", f=1, g=0, s=0, q=1)]))
+        # ... and asked twice for a stationary point (two minimisers / zeros are two samples), then queried
+        items.append(dict(cls=cls, kw=kw, flag=0, variant=0,
+                          h=[dict(op="stat", f=1, g=0, s=0, q=1), dict(op="stat", f=1, g=0, s=0, q=1),
+                             dict(op="oracle", f=1, g=0, s=0, q=1)]))
     traces = pool_map("drv_c07b", "run", items)
     out = []
     B = 6000
